@@ -7,7 +7,7 @@ from props import c01
 
 ID = "C18"
 # look-alikes of prelude names (vlib/defs.py HOSTILE) this check's derives are immune to on the unchanged tree
-HOSTILE_OK = ['From', 'Into', 'Result', 'Some', 'Ok', 'Iterator', 'Clone', 'AsRef', 'Send', 'PhantomData']
+HOSTILE_OK = ['From', 'Into', 'Result', 'Some', 'Ok', 'Iterator', 'Clone', 'AsRef', 'Send', 'PhantomData', 'IterGet', 'm_matches', 'm_assert', 'm_fmt']
 PROP_FILE = "Props/C18.v"
 RULE = ("definitions: C01-style enums WITHOUT a default variant, half with parse_err_ty + parse_err_fn (a function or a module "
         "path; attributes in either order, in one or two #[strum] attributes), half without; case-sensitive and insensitive "
@@ -59,6 +59,13 @@ def build_corpus(tier, rng):
         if j % 4 == 3:
             for v in vs:
                 v.kind, v.fields = "unit", []
+    # the enum and its error function declared inside a FUNCTION BODY, a module-level function of the same name next to it: the local one is the
+    # declared one (names resolve lexically)
+    for j, fn in enumerate(("perr_a", "not_found", "error")):
+        vs = [Variant("Red", "unit"), Variant("Blue", "tuple", [Field("u8")], [ser("b%d" % j)]), Variant("DarkGreen", "unit", [], [aci(True, explicit=False)])]
+        it = Item("E", vs, metas=[EM("pety", "PErr"), EM("pefn", fn)] + ([EM("sall", "kebab-case")] if j else []))
+        it.in_fn_body = True
+        cands.append(("fn-body", it))
     for it in c01.systematic(rng):
         it.variants = [v for v in it.variants if not v.has("default")]
         it.metas = [m for m in it.metas if m.kind not in ("pety", "pefn")] + [EM("pefn", "perr::b"), EM("pety", "PErr")]
